@@ -1,0 +1,12 @@
+//go:build !verif
+
+package gowarc
+
+import "io"
+
+// verifAt marks a scheduling or file-system effect point for the verification harness.
+// Without the "verif" build tag it does nothing and is inlined away.
+func verifAt(point string) {}
+
+// verifWrap lets the verification harness observe the writes to a WARC file.
+func verifWrap(w io.Writer) io.Writer { return w }
